@@ -19,6 +19,8 @@ class C06Spec(explore.Spec):
         for fmt in ("json", "pickle"):
             for v in ("1.4", "2.2"):
                 out.append({"version": v, "persistence": fmt, "cb": None})
+            # a smart-sleep node with a parked reply while saves, id requests and restarts happen (own, shallower config)
+            out.append({"version": "2.2", "persistence": fmt, "cb": None, "sleeper": True, "depth": 4 if tier == "quick" else 6})
         return out
 
     def alphabet(self, cfg):
@@ -40,6 +42,13 @@ class C06Spec(explore.Spec):
         if self.tier == "thorough":
             evs += [alpha.rx(f"0;255;0;0;17;{v}"), alpha.rx("1;0;0;0;3;d"), alpha.rx("1;0;1;0;2;1")]
         return evs
+
+    def roots(self, cfg):
+        out = [()]
+        if cfg.get("sleeper"):
+            # node 1 uses smart sleep and has a reply parked for it when the saves and the restart happen
+            return [(alpha.rx("1;255;0;0;17;2.2"), alpha.rx("1;0;0;0;3;d"), alpha.rx("1;255;3;0;32;500"), alpha.rx("1;255;3;0;6;0"))]
+        return out
 
     def new_monitor(self, cfg):
         return GatewayMonitor(PROP, cfg["version"], {"ids", "exc"})
@@ -67,17 +76,14 @@ def run(tier):
         explore.run(spec, report, tier, 6, 300000, 150)
     else:
         explore.run(spec, report, tier, 8, 2000000, 1800)
-    for viol in list(report.violations.values()):
-        if viol.replay and viol.replay.get("kind") == "history" and not explore.confirm(spec, viol):
-            raise HarnessError(f"violation {viol.signature} did not reproduce from its replay data")
+    e1check.confirm_all(spec, report)
     part_b = run_part_b(report, tier)
     cov_sync = dict(report.coverage)
     sub = Report(PROP, "model_checking", tier)
     aspec = C06AsyncSpec()
-    explore.run(aspec, sub, tier, 7 if tier == "quick" else 9, 300000, 120 if tier == "quick" else 900)
+    explore.run(aspec, sub, tier, 9 if tier == "quick" else 12, 300000, 120 if tier == "quick" else 900)
+    e1check.confirm_all(aspec, sub)
     for viol in sub.violations.values():
-        if viol.replay and viol.replay.get("kind") == "history" and not explore.confirm(aspec, viol):
-            raise HarnessError(f"violation {viol.signature} did not reproduce from its replay data")
         report.add(viol)
     report.coverage.clear()
     report.coverage.update(cov_sync)
@@ -306,6 +312,7 @@ class AsyncRestartWorld:
         self.gw = AsyncSerialGateway("/dev/verif", persistence=True, persistence_file=os.path.join(self.dir, f"p.{self.fmt}"), protocol_version="2.2")
         self.start_task = self.loop.start(self.gw.start_persistence())
         self.lives += 1
+        self.started = False
 
     def enabled(self, ev):
         if ev[0] == "exec":
@@ -318,6 +325,12 @@ class AsyncRestartWorld:
             return False
         if ev[0] == "restart":
             return self.lives < 3
+        if ev[0] == "start":
+            return not self.started
+        if ev[0] == "conn-ok":
+            return bool(self.loop.live_requests())
+        if ev[0] == "lost":
+            return any(not t.lost_reported for t in self.loop.links_made)
         return True
 
     def apply(self, ev):
@@ -340,6 +353,21 @@ class AsyncRestartWorld:
                 self.loop.complete_executor(ev[1])
             elif ev[0] == "timer":
                 self.loop.fire_next_timer()
+            elif ev[0] == "start":
+                # the transport side: gateway.start() dials through the (fake) serial_asyncio
+                import types
+
+                import mysensors.gateway_serial as gs
+
+                gs.serial_asyncio = types.SimpleNamespace(create_serial_connection=self.loop.create_serial_connection)
+                self.started = True
+                self.loop.start(self.gw.start())
+            elif ev[0] == "conn-ok":
+                self.loop.answer_connection("ok")
+            elif ev[0] == "lost":
+                links = [t for t in self.loop.links_made if not t.lost_reported]
+                self.loop.call(links[-1]._report_lost, ConnectionResetError("device error (harness)"))
+                self.loop.run_ready()
             elif ev[0] == "restart":
                 task = self.loop.start(self.gw.stop())
                 guard = 0
@@ -348,6 +376,8 @@ class AsyncRestartWorld:
                     guard += 1
                 if not task.done():
                     obs.exc = {"type": "Hang", "text": "stop() did not finish", "site": "task.py:stop"}
+                elif task.cancelled():
+                    obs.exc = {"type": "CancelledError", "text": "stop() ended with CancelledError before its final save", "site": "task.py:stop"}
                 elif task.exception() is not None:
                     obs.exc = exc_info(task.exception())
                 self.loop.shutdown()
@@ -369,7 +399,8 @@ class AsyncRestartWorld:
             with open(os.path.join(self.dir, name), "rb") as fh:
                 files.append((name, canon.digest(fh.read()).hex()))
         jobs = tuple(getattr(f, "__name__", "?") for _, f, _ in self.loop.executor_jobs)
-        text = repr((canon.walk(self.gw.sensors), self.gw.tasks.persistence.need_save, tuple(files), jobs, len(self.loop.pending_timers()), self.start_task.done(), self.lives, repr(self.dead), extra))
+        link = (self.started, len(self.loop.live_requests()), len([t for t in self.loop.links_made if not t.lost_reported]), self.gw.tasks.transport.connect_task is not None)
+        text = repr((link, canon.walk(self.gw.sensors), self.gw.tasks.persistence.need_save, tuple(files), jobs, len(self.loop.pending_timers()), self.start_task.done(), self.lives, repr(self.dead), extra))
         return hashlib.blake2b(text.encode("utf-8", "surrogatepass"), digest_size=12).digest()
 
     def snapshot(self):
@@ -437,7 +468,7 @@ class C06AsyncSpec(explore.Spec):
         return AsyncRestartWorld(cfg)
 
     def alphabet(self, cfg):
-        return [("exec", 0), alpha.rx("255;255;3;0;3;"), ("exec", 1), ("timer",), ("restart",), alpha.rx("1;255;3;0;0;57")]
+        return [("exec", 0), alpha.rx("255;255;3;0;3;"), ("exec", 1), ("timer",), ("restart",), alpha.rx("1;255;3;0;0;57"), ("start",), ("conn-ok",), ("lost",)]
 
     def new_monitor(self, cfg):
         return IdHistoryMonitor()
